@@ -35,6 +35,7 @@ use verif_harness::*;
 enum T { Iri(String), Bn(String), Lit(String, String), Lang(String, String), Tr(Box<[T; 3]>) }
 const RDF_LANGSTRING: &str = "http://www.w3.org/1999/02/22-rdf-syntax-ns#langString";
 fn x(local: &str) -> String { format!("{XSD}{local}") }
+fn x_(local: &str) -> String { x(local) }
 fn lit(lex: &str, local: &str) -> T { T::Lit(lex.into(), x(local)) }
 /// a SPARQL string literal (Rust's Debug would write \u{301} for a combining mark)
 fn sparql_str(l: &str) -> String {
@@ -532,6 +533,11 @@ fn pool() -> Vec<(&'static str, T)> {
     for b in ["b1", "b2"] { p.push(("bnode", T::Bn(b.into()))) }
     p.push(("triple", T::Tr(Box::new([T::Iri("http://x/a".into()), T::Iri("http://x/p".into()), lit("1", "integer")]))));
     p.push(("triple", T::Tr(Box::new([T::Bn("b1".into()), T::Iri("http://x/p".into()), T::Lang("a".into(), "en".into())]))));
+    // integers far beyond isize (2^64, 10^20 + k, 10^30) and the small values that sums / differences of them come back to
+    for l in ["18446744073709551616", "-18446744073709551616", "100000000000000000000", "100000000000000000030", "-100000000000000000000", "1000000000000000000000000000000", "-1000000000000000000000000000000", "9223372036854775837", "-9223372036854775838"] { p.push(("int-far", lit(l, "integer"))) }
+    for l in ["30", "29", "31", "-3", "-2", "-5", "-10", "4", "-30", "6", "9"] { p.push(("int-round", lit(l, "integer"))) }
+    for l in ["30.0", "30.5", "29.5", "0.5", "-1.0"] { p.push(("dec-round", lit(l, "decimal"))) }
+    for l in ["3e1", "1e30", "-1e0"] { p.push(("dbl-round", lit(l, "double"))) }
     // ---- classes used by the function-call streams only (FIRST_FN_CLASS): every string kind ----
     for l in ["abcabc", "ABC", "aBc", "hello world", "12345", "x-y_z.~", "a/b?c=d&e", "100%", " ", "bc", "c", "ab", "A", "abc def"] { p.push(("fascii", lit(l, "string"))) }
     for l in ["stra\u{df}e", "a\u{e9}", "\u{e9}a", "\u{65e5}\u{672c}\u{8a9e}", "\u{1f600}", "a\u{1f600}b", "e\u{301}", "\u{3a3}\u{391}\u{3a3}", "\u{3c3}\u{3b1}\u{3c2}", "\u{fb01}n", "\u{130}", "\u{414}\u{434}", "\u{df}", "\u{10428}\u{10400}", "\u{212a}", "\u{b5}\u{ff}"] { p.push(("funi", lit(l, "string"))) }
@@ -687,6 +693,91 @@ impl<'a> FG<'a> {
         call(f, args)
     }
 }
+/// COMPUTED numeric operands (the stream `computed-compare`): arithmetic whose intermediate results leave the isize range
+/// and whose value falls back inside it (the engine keeps such a result in its big-integer representation), and sums,
+/// differences, products and negations over every numeric type.  Returns the expression and, when it is known, a pool
+/// term with the same integer value.
+impl<'a> Gen<'a> {
+    fn ix(&self, lex: &str) -> usize { self.pool.iter().position(|(_, t)| *t == lit(lex, "integer")).unwrap_or_else(|| panic!("not in the pool: {lex}")) }
+    fn round_trip(&mut self, mu: &mut [Option<usize>; 4]) -> (E, Option<usize>) {
+        let bigs = ["9223372036854775808", "-9223372036854775809", "99999999999999999999", "-99999999999999999999", "18446744073709551616", "-18446744073709551616", "100000000000000000000", "1000000000000000000000000000000", "-1000000000000000000000000000000", "9223372036854775807", "-9223372036854775808"];
+        let smalls = ["0", "1", "2", "3", "10", "-1", "30", "-3", "4", "-5"];
+        let bl = self.r.ps(&bigs); let b = self.ix(bl); let sl = self.r.ps(&smalls); let si = self.ix(sl);
+        let neg_of = |me: &Self, l: &str| -> Option<usize> { let n = if l == "0" { "0".to_string() } else if let Some(r) = l.strip_prefix('-') { r.to_string() } else { format!("-{l}") }; me.pool.iter().position(|(_, t)| *t == lit(&n, "integer")) };
+        let mut lf = |me: &mut Self, i: usize, mu: &mut [Option<usize>; 4]| me.leaf_for(i, mu);
+        let zero = self.ix("0"); let one = self.ix("1"); let two = self.ix("2");
+        let (max, min) = (self.ix("9223372036854775807"), self.ix("-9223372036854775808"));
+        match self.r.below(16) {
+            0 => (bin(B2::Sub, bin(B2::Add, lf(self, b, mu), lf(self, si, mu)), lf(self, b, mu)), Some(si)),
+            1 => (bin(B2::Sub, bin(B2::Add, lf(self, si, mu), lf(self, b, mu)), lf(self, b, mu)), Some(si)),
+            2 => (bin(B2::Add, bin(B2::Sub, lf(self, si, mu), lf(self, b, mu)), lf(self, b, mu)), Some(si)),
+            3 => (bin(B2::Sub, bin(B2::Sub, lf(self, b, mu), lf(self, si, mu)), lf(self, b, mu)), neg_of(self, sl)),
+            4 => (bin(B2::Mul, lf(self, b, mu), lf(self, zero, mu)), Some(zero)),
+            5 => (bin(B2::Add, bin(B2::Mul, lf(self, zero, mu), lf(self, b, mu)), lf(self, si, mu)), Some(si)),
+            6 => (bin(B2::Sub, lf(self, b, mu), lf(self, b, mu)), Some(zero)),
+            7 => { let (x, y, d) = *self.r.pick(&[("9223372036854775808", "9223372036854775807", "1"), ("100000000000000000030", "100000000000000000000", "30"), ("9223372036854775837", "9223372036854775807", "30"), ("-9223372036854775809", "-9223372036854775808", "-1"), ("-9223372036854775838", "-9223372036854775808", "-30"), ("99999999999999999999", "100000000000000000000", "-1"), ("9223372036854775808", "9223372036854775806", "2")]);
+                   let (x, y) = (self.ix(x), self.ix(y)); (bin(B2::Sub, lf(self, x, mu), lf(self, y, mu)), Some(self.ix(d))) }
+            8 => (E::Minus(bx(E::Minus(bx(lf(self, min, mu))))), Some(min)),
+            9 => (bin(B2::Sub, bin(B2::Add, lf(self, max, mu), lf(self, one, mu)), lf(self, one, mu)), Some(max)),
+            10 => (bin(B2::Add, bin(B2::Sub, lf(self, min, mu), lf(self, one, mu)), lf(self, one, mu)), Some(min)),
+            11 => (bin(B2::Add, E::Minus(bx(lf(self, b, mu))), lf(self, b, mu)), Some(zero)),
+            12 => (bin(B2::Sub, bin(B2::Mul, lf(self, b, mu), lf(self, one, mu)), lf(self, b, mu)), Some(zero)),
+            13 => (bin(B2::Sub, bin(B2::Add, lf(self, b, mu), lf(self, b, mu)), bin(B2::Mul, lf(self, b, mu), lf(self, two, mu))), Some(zero)),
+            14 => { let (x, y, d) = *self.r.pick(&[("100000000000000000000", "-100000000000000000000", "0"), ("100000000000000000030", "-100000000000000000000", "30"), ("18446744073709551616", "-18446744073709551616", "0"), ("9223372036854775808", "-9223372036854775809", "-1"), ("99999999999999999999", "-99999999999999999999", "0")]);
+                   let (x, y) = (self.ix(x), self.ix(y)); (if self.r.chance(1, 2) { bin(B2::Add, lf(self, x, mu), lf(self, y, mu)) } else { bin(B2::Add, lf(self, y, mu), lf(self, x, mu)) }, Some(self.ix(d))) }
+            _ => (E::Plus(bx(bin(B2::Sub, bin(B2::Add, lf(self, b, mu), lf(self, si, mu)), lf(self, b, mu)))), Some(si)),
+        }
+    }
+    /// a sum / difference / product / negation over leaves of every numeric type (possibly nested once)
+    fn computed_num(&mut self, d: usize, mu: &mut [Option<usize>; 4]) -> E {
+        if d > 0 && self.r.chance(1, 3) { return self.round_trip(mu).0 }
+        let cs = ["int", "int", "int-round", "int-boundary", "int-far", "int-derived", "decimal", "decimal", "float", "double", "double", "float-special", "double-special"];
+        let mut operand = |me: &mut Self, mu: &mut [Option<usize>; 4]| if d > 0 && me.r.chance(1, 4) { me.computed_num(d - 1, mu) } else { let c = *me.r.pick(&cs); let i = me.of_class(c); me.leaf_for(i, mu) };
+        match self.r.below(8) {
+            0 => E::Minus(bx(operand(self, mu))), 1 => E::Plus(bx(operand(self, mu))),
+            k => { let op = [B2::Add, B2::Sub, B2::Mul, B2::Add, B2::Sub, B2::Div][k - 2]; let x = operand(self, mu); let y = if self.r.chance(1, 5) { x.clone() } else { operand(self, mu) }; bin(op, x, y) }
+        }
+    }
+    /// every comparison operator (and IN / NOT IN / sameTerm) with computed operands on either side or on both
+    fn computed_compare(&mut self, kind: usize, mu: &mut [Option<usize>; 4]) -> E {
+        let cmp_ops = [B2::Eq, B2::Eq, B2::Lt, B2::Le, B2::Gt, B2::Ge, B2::SameTerm];
+        match kind {
+            0 | 1 => { // an integer that went beyond isize and came back, against an ordinary integer
+                let (lhs, same) = self.round_trip(mu);
+                let rhs = match self.r.below(20) {
+                    0..=8 => match same { Some(i) => self.leaf_for(i, mu), None => { let i = self.of_class("int"); self.leaf_for(i, mu) } },
+                    9..=12 => { let c = *self.r.pick(&["int", "int-round", "int-boundary", "int-derived"]); let i = self.of_class(c); self.leaf_for(i, mu) }
+                    13..=15 => self.round_trip(mu).0,
+                    16 | 17 => { let c = *self.r.pick(&["decimal", "double", "float"]); let i = self.of_class(c); self.leaf_for(i, mu) }
+                    _ => self.computed_num(0, mu),
+                };
+                let (a, b) = if self.r.chance(1, 2) { (lhs, rhs) } else { (rhs, lhs) };
+                match self.r.below(9) {
+                    0..=6 => { let e = bin(cmp_ops[self.r.below(7)], a, b); if self.r.chance(1, 4) { E::Not(bx(e)) } else { e } }
+                    7 => { let mut l = vec![b]; if self.r.chance(1, 2) { let i = self.of_class("int"); l.insert(0, self.leaf_for(i, mu)) } if self.r.chance(1, 3) { l.push(self.round_trip(mu).0) } E::In(bx(a), l) }
+                    _ => { let mut l = vec![b]; if self.r.chance(1, 2) { let i = self.of_class("int-round"); l.push(self.leaf_for(i, mu)) } E::Not(bx(E::In(bx(a), l))) }
+                }
+            }
+            2 => { // computed operands of every numeric type on both sides
+                let a = self.computed_num(1, mu);
+                let b = if self.r.chance(2, 3) { self.computed_num(1, mu) } else { let c = *self.r.pick(&["int", "int-boundary", "int-far", "decimal", "float", "double", "int-round"]); let i = self.of_class(c); self.leaf_for(i, mu) };
+                let (a, b) = if self.r.chance(1, 2) { (a, b) } else { (b, a) };
+                let e = bin(cmp_ops[self.r.below(7)], a, b); if self.r.chance(1, 4) { E::Not(bx(e)) } else { e }
+            }
+            _ => { // the comparison inside a larger expression: connectives, IF, COALESCE, IN with several computed members
+                let c1 = { let k = self.r.below(2); self.computed_compare(k, mu) };
+                match self.r.below(6) {
+                    0 => { let c2 = self.computed_compare(2, mu); bin(*self.r.pick(&[B2::Or, B2::And]), c1, c2) }
+                    1 => { let (t, f) = (self.round_trip(mu).0, self.computed_num(0, mu)); E::If(bx(c1), bx(t), bx(f)) }
+                    2 => { let (x, same) = self.round_trip(mu); let y = match same { Some(i) => self.leaf_for(i, mu), None => self.round_trip(mu).0 }; bin(B2::Eq, E::If(bx(c1), bx(x), bx(y.clone())), y) }
+                    3 => E::Coalesce(vec![bin(B2::Div, self.round_trip(mu).0, self.round_trip(mu).0), c1]),
+                    4 => { let (x, _) = self.round_trip(mu); let l = (0..self.r.range(1, 3)).map(|_| self.round_trip(mu).0).collect(); E::In(bx(x), l) }
+                    _ => { let (x, y) = (self.round_trip(mu).0, self.round_trip(mu).0); bin(*self.r.pick(&[B2::Lt, B2::Ge, B2::Eq]), bin(*self.r.pick(&[B2::Add, B2::Sub, B2::Mul]), x, y), c1) }
+                }
+            }
+        }
+    }
+}
 const BINOPS: [B2; 12] = [B2::Eq, B2::SameTerm, B2::Lt, B2::Le, B2::Gt, B2::Ge, B2::Add, B2::Sub, B2::Mul, B2::Div, B2::Or, B2::And];
 
 fn main() {
@@ -732,7 +823,7 @@ fn main() {
     header.push_str("Definition fr (e : fexpr) (rows : list (amap * bool)) : bool := frows_ok XC YC the_cfg ([], d_rust XC [53; 101; 45; 49]) e rows.\n");
 
     let mut sum = Summary::default();
-    sum.rule = "case = (expression tree of depth <= 4 over a pool of ~190 terms covering every value class, well- and ill-formed; <= 3 variables bound through a BGP, one unbound, inline constants); streams: random trees / every binary operator x every pair of value classes / unary operators, functions and boolean contexts x every class / near-boundary integer arithmetic / the known deviations; non-trivial = the expression has an operator (not a bare leaf); distinct = distinct (expression text, solution).  Function calls (ids >= 2000000): 34 implemented functions x 51 term classes x argument positions / random nested calls / SUBSTR boundaries / 14 laws evaluated by the engine / 18 functions without implementation / multi-row FILTER through prepare_query / regression queries; every such case calls at least one function".into();
+    sum.rule = "case = (expression tree of depth <= 4 over a pool of ~190 terms covering every value class, well- and ill-formed; <= 3 variables bound through a BGP, one unbound, inline constants); streams: random trees / every binary operator x every pair of value classes / unary operators, functions and boolean contexts x every class / near-boundary integer arithmetic / the known deviations / comparisons (= != < <= > >= IN NOT IN sameTerm, alone and inside connectives, IF, COALESCE) whose operands are COMPUTED: sums, differences, products, negations over every numeric type, and integers that leave the isize range and come back (+-2^63, +-2^64, 10^20, 10^30), also as SELECT expressions; non-trivial = the expression has an operator (not a bare leaf); distinct = distinct (expression text, solution).  Function calls (ids >= 2000000): 34 implemented functions x 51 term classes x argument positions / random nested calls / SUBSTR boundaries / 14 laws evaluated by the engine / 12 laws over ABS CEIL FLOOR ROUND STR SUBSTR ... of computed integers back in the isize range / 18 functions without implementation / multi-row FILTER through prepare_query / regression queries; every such case calls at least one function".into();
     sum.extra.push(("engine_repairs".into(), format!("{{\"C13e-1\": {}, \"C13e-2\": {}, \"C13e-3\": {}, \"C13e-4\": {}, \"C13e-5\": {}, \"C13e-6\": {}, \"C13e-7\": {}, \"C13e-8\": {}, \"C13e-9\": {}}}", cfg[0], cfg[1], cfg[2], cfg[3], cfg[4], cfg[5], cfg[6], !dt_panics, cfg[7])));
     if dt_panics {
         sum.oracle_failures.push(("probe".into(), format!("PANIC-DATETIME-YEAR: the query  SELECT ?r {{ BIND(({} = 1) AS ?r) }}  panics (XsdDateTime::new unwraps the i32 parse of a year that the regex does not bound); expected: the literal is ill-formed, '=' raises a type error, ?r unbound", xs("99999999999-01-01T00:00:00", "dateTime"))));
@@ -765,13 +856,52 @@ fn main() {
         E::Coalesce(vec![E::Fn(F1::Str, bx(E::In(bx(bin(B2::Mul, k_("INF", "float"), k_("INF", "float"))), vec![E::Coalesce(vec![k_("inf", "float"), k_("0x1", "float")])]))), k_("0x1", "float")]),
         bin(B2::SameTerm, bin(B2::Mul, k_("INF", "double"), k_("1e0", "double")), k_("inf", "double")),
     ];
-    let range: Vec<usize> = match a.only { Some(i) => vec![i], None => (0..a.n).chain(WBASE..WBASE + witnesses.len()).collect() };
+    // comparisons over COMPUTED operands (case ids 500000 + j) and the directed ones among them (600000 + j)
+    const CBASE: usize = 500_000;
+    const DBASE: usize = 600_000;
+    let n_computed = a.n / 3;
+    let i_ = |l: &str| k_(l, "integer");
+    let big30 = || bin(B2::Sub, i_("100000000000000000030"), i_("100000000000000000000"));   // 30, computed beyond isize
+    let big0 = || bin(B2::Mul, i_("100000000000000000000"), i_("0"));                            // 0
+    let sum0 = || bin(B2::Add, i_("100000000000000000000"), i_("-100000000000000000000"));      // 0
+    let max_rt = || bin(B2::Sub, bin(B2::Add, i_("9223372036854775807"), i_("1")), i_("1"));    // isize::MAX
+    let min_rt = || E::Minus(bx(E::Minus(bx(i_("-9223372036854775808")))));                     // isize::MIN
+    let ne = |a: E, b: E| E::Not(bx(bin(B2::Eq, a, b)));
+    let directed_computed: Vec<E> = vec![
+        // a difference / sum / product of integers beyond isize that is an ordinary integer again, on either side of every operator
+        bin(B2::Eq, big30(), i_("30")), bin(B2::Eq, i_("30"), big30()), ne(big30(), i_("30")), ne(i_("30"), big30()), ne(big30(), i_("29")),
+        bin(B2::Lt, big30(), i_("31")), bin(B2::Lt, i_("29"), big30()), bin(B2::Lt, i_("31"), big30()), bin(B2::Le, big30(), i_("30")), bin(B2::Le, i_("31"), big30()),
+        bin(B2::Gt, big30(), i_("29")), bin(B2::Gt, i_("31"), big30()), bin(B2::Gt, big30(), i_("31")), bin(B2::Ge, big30(), i_("30")), bin(B2::Ge, i_("30"), big30()), bin(B2::Ge, i_("29"), big30()),
+        E::In(bx(i_("30")), vec![big30()]), E::In(bx(big30()), vec![i_("29"), i_("30")]), E::Not(bx(E::In(bx(i_("30")), vec![big30()]))), E::Not(bx(E::In(bx(big30()), vec![i_("29"), i_("31")]))),
+        bin(B2::SameTerm, big30(), i_("30")), bin(B2::SameTerm, i_("30"), big30()),
+        bin(B2::Eq, big0(), i_("0")), bin(B2::Lt, i_("0"), big0()), bin(B2::Lt, big0(), i_("1")), bin(B2::Gt, big0(), i_("-1")), bin(B2::Le, i_("1"), big0()),
+        bin(B2::Lt, sum0(), i_("1")), bin(B2::Ge, sum0(), i_("0")), bin(B2::Eq, i_("0"), sum0()), bin(B2::Gt, bin(B2::Add, i_("-100000000000000000000"), i_("100000000000000000030")), i_("30")),
+        bin(B2::Eq, max_rt(), i_("9223372036854775807")), bin(B2::Gt, max_rt(), i_("9223372036854775806")), bin(B2::Lt, i_("9223372036854775806"), max_rt()), bin(B2::Le, max_rt(), i_("9223372036854775806")),
+        bin(B2::Eq, min_rt(), i_("-9223372036854775808")), bin(B2::Lt, min_rt(), i_("0")), bin(B2::Lt, i_("-9223372036854775808"), min_rt()), bin(B2::Ge, i_("-9223372036854775808"), min_rt()),
+        bin(B2::Le, bin(B2::Add, bin(B2::Sub, i_("-9223372036854775808"), i_("1")), i_("1")), i_("-9223372036854775808")),
+        // computed on both sides
+        bin(B2::Eq, bin(B2::Sub, i_("18446744073709551616"), i_("18446744073709551616")), bin(B2::Sub, i_("1000000000000000000000000000000"), i_("1000000000000000000000000000000"))),
+        bin(B2::Lt, bin(B2::Sub, i_("18446744073709551616"), i_("18446744073709551616")), bin(B2::Sub, i_("9223372036854775808"), i_("9223372036854775807"))),
+        bin(B2::Eq, big30(), bin(B2::Add, i_("29"), i_("1"))), bin(B2::Lt, bin(B2::Add, i_("29"), i_("2")), big30()), bin(B2::Eq, bin(B2::Sub, big30(), i_("30")), big0()),
+        // against decimals and doubles, and computed decimals / doubles
+        bin(B2::Eq, big30(), k_("30.0", "decimal")), bin(B2::Lt, big30(), k_("30.5", "decimal")), bin(B2::Eq, big30(), k_("3e1", "double")), bin(B2::Lt, k_("29.5", "decimal"), big30()),
+        bin(B2::Gt, bin(B2::Add, big30(), k_("0.5", "decimal")), i_("30")), bin(B2::Lt, bin(B2::Sub, bin(B2::Add, i_("100000000000000000000"), k_("0.5", "decimal")), i_("100000000000000000000")), i_("1")),
+        bin(B2::Eq, bin(B2::Sub, bin(B2::Add, k_("1e30", "double"), k_("1e0", "double")), k_("1e30", "double")), i_("0")), bin(B2::Lt, bin(B2::Mul, big30(), k_("1e0", "double")), k_("30.5", "decimal")),
+        // inside larger expressions
+        bin(B2::Eq, E::If(bx(bin(B2::Eq, big30(), i_("30"))), bx(i_("1")), bx(i_("2"))), i_("1")), bin(B2::And, bin(B2::Eq, big30(), i_("30")), bin(B2::Eq, big0(), i_("0"))),
+        bin(B2::Or, bin(B2::Lt, big30(), i_("30")), bin(B2::Gt, big30(), i_("30"))), E::Coalesce(vec![bin(B2::Div, big0(), big0()), bin(B2::Eq, big0(), i_("0"))]),
+        E::Fn(F1::Str, bx(bin(B2::Eq, big30(), i_("30")))), bin(B2::Eq, E::Fn(F1::Str, bx(big30())), k_("1", "string")),
+    ];
+    let range: Vec<usize> = match a.only { Some(i) => vec![i], None => (0..a.n).chain(CBASE..CBASE + n_computed).chain(DBASE..DBASE + directed_computed.len()).chain(WBASE..WBASE + witnesses.len()).collect() };
     let mut explained: BTreeMap<String, u64> = BTreeMap::new();
     for idx in range {
         let mut g = Gen { r: base.fork(idx as u64), pool: &pool_l, classes: &classes };
         let mut mu: [Option<usize>; 4] = [None; 4];
         let k = idx / 5;
-        let (stream, e) = if idx >= WBASE { if idx - WBASE >= witnesses.len() { continue } ("witness", witnesses[idx - WBASE].clone()) } else { match idx % 5 {
+        let (stream, e) = if idx >= WBASE { if idx - WBASE >= witnesses.len() { continue } ("witness", witnesses[idx - WBASE].clone()) }
+            else if idx >= DBASE { if idx - DBASE >= directed_computed.len() { continue } ("computed-compare-directed", directed_computed[idx - DBASE].clone()) }
+            else if idx >= CBASE { let kind = (idx - CBASE) % 4; ("computed-compare", g.computed_compare(kind, &mut mu)) }
+            else { match idx % 5 {
             0 | 1 => { let d = g.r.range(1, 4); ("random", g.tree(d, &mut mu)) }
             2 => { // every binary operator x every ordered pair of classes
                 let op = BINOPS[k % 12]; let pair = (k / 12) % (nc * nc);
@@ -822,6 +952,12 @@ fn main() {
         let (o1, o2, q1) = eval_engine(&pool_t, &mu, &text);
         let mu_show: Vec<String> = (0..3).filter_map(|v| mu[v].map(|i| format!("?{}={}", VARS[v], pool_t[i].show()))).collect();
         let descr = format!("{} with {{{}}}", text.replace(XSD, "xsd:"), mu_show.join(", "));
+        if stream.starts_with("computed-compare") {
+            // the same expression as a SELECT expression: it must produce what BIND produces
+            let (d, bgp) = dataset_for(&pool_t, &mu);
+            let o3 = run_engine(&d, &format!("SELECT ({text} AS ?r) {{ {bgp} }}"));
+            if o3 != o1 { sum.oracle_failures.push((idx.to_string(), format!("SELECT-EXPRESSION-DIFFERS: {descr}: BIND gives {o1:?}, the SELECT expression gives {o3:?}"))); }
+        }
         sum.evaluations += 1;
         sum.bump(&format!("stream:{stream}"));
         let (bound, kept) = match (&o1, &o2) {
@@ -927,12 +1063,15 @@ fn main() {
         ("not-implemented", call(Fu::Regex, vec![ks("abc"), ks("b")]), None),
         ("iri-relative", call(Fu::Iri, vec![ks("a")]), None),
     ];
-    let frange: Vec<usize> = match a.only { Some(i) if i >= FBASE => vec![i], Some(_) => vec![], None => (FBASE..FBASE + nf).chain(RBASE..RBASE + regressions.len()).collect() };
+    // functions applied to COMPUTED integers that left the isize range and came back (case ids LBASE + j): each law must be true
+    const LBASE: usize = 2_500_000;
+    let n_flaws = a.n / 10;
+    let frange: Vec<usize> = match a.only { Some(i) if i >= FBASE => vec![i], Some(_) => vec![], None => (FBASE..FBASE + nf).chain(LBASE..LBASE + n_flaws).chain(RBASE..RBASE + regressions.len()).collect() };
     let fn_classes: Vec<&'static str> = all_classes.iter().map(|c| c.0).collect();
     let pool_bnodes: HashSet<String> = pool_t.iter().filter_map(|t| if let T::Bn(b) = t { Some(b.clone()) } else { None }).collect();
     for idx in frange {
         let mut g = FG { g: Gen { r: base.fork(idx as u64), pool: &pool_l, classes: &all_classes }, mu: [None; 4] };
-        let j = idx - if idx >= RBASE { RBASE } else { FBASE };
+        let j = idx - if idx >= RBASE { RBASE } else if idx >= LBASE { LBASE } else { FBASE };
         let k = j / 8;
         let mut law: Option<String> = None;       // Some(class of a failure): the expression must evaluate to true
         let mut expect: Option<T> = None;         // the term the specification prescribes (regression cases)
@@ -942,6 +1081,28 @@ fn main() {
             expect = regressions[j].2.clone();
             match regressions[j].0 { "langmatches-empty" => law = Some("FUNC-LANGMATCHES-EMPTY".into()), "bnode-arg" => law = Some("FUNC-BNODE-ARG-IGNORED".into()), n => if expect.is_some() { law = Some(format!("FUNC-REGRESSION({n})")) } }
             ("regression", regressions[j].1.clone())
+        } else if idx >= LBASE {
+            let (rt, same) = g.g.round_trip(&mut g.mu);
+            let x = FE::E(rt);
+            // a literal with the same value (or the computed value itself when none is in the pool)
+            let y = match same { Some(i) => g.t(i), None => x.clone() };
+            let xsd_integer = FE::E(E::Const(tix(&T::Iri(x_("integer")))));
+            let (name, e) = match j % 12 {
+                0 => ("abs", fbin(B2::Eq, call(Fu::Abs, vec![x]), call(Fu::Abs, vec![y]))),
+                1 => ("abs-term", fbin(B2::SameTerm, call(Fu::Abs, vec![x]), call(Fu::Abs, vec![y]))),
+                2 => { let f = *g.g.r.pick(&[Fu::Ceil, Fu::Floor, Fu::Round]); ("ceil-floor-round", fand(vec![fbin(B2::Eq, call(f, vec![x.clone()]), y.clone()), fbin(B2::SameTerm, call(f, vec![x.clone()]), call(f, vec![y])), fbin(B2::Le, call(f, vec![x.clone()]), x.clone()), fbin(B2::Ge, call(f, vec![x.clone()]), x)])) }
+                3 => ("str", fbin(B2::SameTerm, call(Fu::Str, vec![x]), call(Fu::Str, vec![y]))),
+                4 => ("datatype-isnumeric", fand(vec![call(Fu::IsNumeric, vec![x.clone()]), call(Fu::IsLiteral, vec![x.clone()]), fbin(B2::SameTerm, call(Fu::Datatype, vec![x]), xsd_integer)])),
+                5 => ("strlen-str", fbin(B2::Eq, call(Fu::StrLen, vec![call(Fu::Str, vec![x])]), call(Fu::StrLen, vec![call(Fu::Str, vec![y])]))),
+                6 => { let s = g.pc(&["fascii", "funi", "string"]); ("substr-start", fbin(B2::SameTerm, call(Fu::SubStr, vec![s.clone(), x]), call(Fu::SubStr, vec![s, y]))) }
+                7 => { let s = g.pc(&["fascii", "funi", "string"]); let one = kn("1", "integer"); ("substr-length", fbin(B2::SameTerm, call(Fu::SubStr, vec![s.clone(), one.clone(), x]), call(Fu::SubStr, vec![s, one, y]))) }
+                8 => ("abs-order", fand(vec![fbin(B2::Ge, call(Fu::Abs, vec![x.clone()]), x.clone()), fbin(B2::Ge, call(Fu::Abs, vec![x.clone()]), kn("0", "integer")), fbin(B2::Le, fbin(B2::Sub, kn("0", "integer"), call(Fu::Abs, vec![x.clone()])), x)])),
+                9 => ("coalesce-if", fbin(B2::Eq, FE::Coalesce(vec![FE::If(fb(fbin(B2::Eq, x.clone(), y.clone())), fb(x.clone()), fb(kn("abc", "integer")))]), y)),
+                10 => ("concat-str", fbin(B2::SameTerm, call(Fu::Concat, vec![call(Fu::Str, vec![x]), ks("a")]), call(Fu::Concat, vec![call(Fu::Str, vec![y]), ks("a")]))),
+                _ => ("round-abs-compose", fbin(B2::Eq, call(Fu::Round, vec![call(Fu::Abs, vec![fbin(B2::Sub, kn("0", "integer"), x)])]), call(Fu::Abs, vec![y]))),
+            };
+            law = Some(format!("FUNC-LAW(computed-integer:{name})"));
+            ("laws-computed-integers", e)
         } else { match j % 8 {
             0 => { // every implemented function x every class of terms, in every argument position
                 let f = IMPLEMENTED[k % IMPLEMENTED.len()]; let cl = fn_classes[(k / IMPLEMENTED.len()) % fn_classes.len()]; let posn = k / (IMPLEMENTED.len() * fn_classes.len());
